@@ -2917,8 +2917,82 @@ def rule_state(repo):
             r.observations.append(f"{backend}: attributes bound only in __init__ (mutated in place during translation, "
                                   f"balanced push/pop assumed): {init_only}")
     _distinct_tables(r, repo)
-    r.require_floor(8)
+    _inputs_before_use(r, repo)
+    r.require_floor(10)
     return r
+
+
+def _inputs_before_use(r, repo):
+    """every per-translation input that clear() stores on the translator (`s.x = <parameter>`) is stored before any call
+    -- including super().clear(...) and the rest of the clear chain -- that reads `s.x`: otherwise the metadata of this
+    translation is generated from the value of the PREVIOUS translate() call"""
+    files = [f for f in scope_files(repo) if f.startswith(GENERIC) or f.startswith(VTRANS) or f.startswith(YTRANS)]
+    defs = {}
+    for rel in files:
+        m = repo.mod(rel)
+        for c in ast.walk(m.tree):
+            if isinstance(c, ast.ClassDef):
+                for f in c.body:
+                    if isinstance(f, ast.FunctionDef) and f.args.args:
+                        defs.setdefault(f.name, []).append((m, c, f))
+    memo = {}
+
+    def reads(name, depth=0):
+        """attributes of self read by any method called `name`, transitively through self / super calls"""
+        if name in memo:
+            return memo[name]
+        memo[name] = set()
+        out = set()
+        for m, c, f in defs.get(name, []):
+            me = f.args.args[0].arg
+            for n in ast.walk(f):
+                if isinstance(n, ast.Attribute) and isinstance(n.value, ast.Name) and n.value.id == me and isinstance(n.ctx, ast.Load):
+                    par = parent(n)
+                    if isinstance(par, ast.Call) and par.func is n:
+                        if depth < 8:
+                            out |= reads(n.attr, depth + 1)
+                    else:
+                        out.add(n.attr)
+                elif isinstance(n, ast.Call) and isinstance(n.func, ast.Attribute) and isinstance(n.func.value, ast.Call) and \
+                        norm(n.func.value.func) == 'super' and depth < 8:
+                    out |= reads(n.func.attr, depth + 1)
+                elif isinstance(n, ast.Call) and isinstance(n.func, ast.Name) and n.func.id in ('hasattr', 'getattr') and \
+                        len(n.args) >= 2 and isinstance(n.args[0], ast.Name) and n.args[0].id == me and \
+                        isinstance(n.args[1], ast.Constant):
+                    out.add(n.args[1].value)
+        memo[name] = out
+        return out
+    n_inst = 0
+    for m, c, f in defs.get('clear', []):
+        me = f.args.args[0].arg
+        params = {a.arg for a in f.args.args[1:]}
+        for i, st in enumerate(f.body):
+            if not (isinstance(st, ast.Assign) and len(st.targets) == 1 and isinstance(st.targets[0], ast.Attribute) and
+                    norm(st.targets[0].value) == me and _names_of_raw(st.value) & params):
+                continue
+            attr = st.targets[0].attr
+            n_inst += 1
+            cons = f"{c.name}.clear stores `{attr}` before the clear chain reads it"
+            early = None
+            for prev in f.body[:i]:
+                for x in ast.walk(prev):
+                    if isinstance(x, ast.Attribute) and x.attr == attr and isinstance(x.ctx, ast.Load) and norm(x.value) == me:
+                        early = early or x          # read directly, before this call's value is stored
+                for call in [x for x in ast.walk(prev) if isinstance(x, ast.Call) and isinstance(x.func, ast.Attribute)]:
+                    recv = call.func.value
+                    is_super = isinstance(recv, ast.Call) and norm(recv.func) == 'super'
+                    if (is_super or (isinstance(recv, ast.Name) and recv.id == me)) and attr in reads(call.func.attr):
+                        early = early or call
+            if early is not None:
+                r.bad(m, qualname(f), cons,
+                      f"`{norm(early)[:60]}` runs before `{norm(st)}` and (through the clear chain) reads `{me}.{attr}`: the "
+                      f"metadata of this translation is generated from the value left by the previous translate() call (None "
+                      f"on the first one), so translating the same design twice with one translator gives different text",
+                      early.lineno)
+            else:
+                r.ok(m, qualname(f), cons)
+    if n_inst < 2:
+        raise AnalysisError(f"R-C13-state: only {n_inst} per-translation inputs stored by clear() methods found")
 
 
 def _distinct_tables(r, repo):
@@ -3784,6 +3858,13 @@ MUTANTS = [
        "loopvars = sorted(list( s.loopvars ), key = lambda v: v.rsplit('_', 1)[-1])", 'R-C13-unordered'),
     _m('loopvars-sorted-by-length', YBL1, "loopvars = sorted(list( s.loopvars ))",
        "loopvars = sorted(list( s.loopvars ), key = len)", 'R-C13-unordered'),
+    _m('clear-chain-runs-before-the-configs-are-stored', TRANSLATOR,
+       "      s.tr_cfgs = tr_cfgs\n      s.hierarchy = TranslatorMetadata()\n      super().clear( tr_top )\n",
+       "      super().clear( tr_top )\n      s.tr_cfgs = tr_cfgs\n      s.hierarchy = TranslatorMetadata()\n", 'R-C13-state'),
+    _m('base-clear-generates-before-storing-top', BASE,
+       "    s.tr_top = tr_top\n    s.component = {}\n    s.hierarchy = TranslatorMetadata()\n    s.gen_base_rtlir_trans_metadata( s.tr_top )",
+       "    s.component = {}\n    s.hierarchy = TranslatorMetadata()\n    s.gen_base_rtlir_trans_metadata( s.tr_top )\n    s.tr_top = tr_top",
+       'R-C13-state'),
     # --- R-C13-state
     _m('translator-state-initialised-once', VTRANSLATOR,
        "      s._mangled_placeholder_top_module_name = ''\n      s._included_pickled_files = set()\n",
@@ -3999,6 +4080,9 @@ EQUIV = [
     _m('loopvars-sorted-key-str', YBL1, "loopvars = sorted(list( s.loopvars ))", "loopvars = sorted(list( s.loopvars ), key = str)", None),
     _m('loopvars-sorted-by-suffix-then-name', YBL1, "loopvars = sorted(list( s.loopvars ))",
        "loopvars = sorted(list( s.loopvars ), key = lambda v: (v.rsplit('_', 1)[-1], v))", None),
+    _m('clear-stores-hierarchy-first', TRANSLATOR,
+       "      s.tr_cfgs = tr_cfgs\n      s.hierarchy = TranslatorMetadata()\n      super().clear( tr_top )\n",
+       "      s.hierarchy = TranslatorMetadata()\n      s.tr_cfgs = tr_cfgs\n      super().clear( tr_top )\n", None),
     _m('local-renamed-in-unique-name', VUTIL, "  param_name = param_hash.hexdigest()\n  return comp_name + \"__\" + param_name",
        "  digest = param_hash.hexdigest()\n  return comp_name + \"__\" + digest", None),
 ]
